@@ -47,7 +47,11 @@ def build_inputs(rng, tmp, nrec, with_reads=False):
     gen.write_text(p["gaf"], text)
     gen.write_bgzf(p["gafz"], text)          # default block size: > 64 KiB of text gives several blocks
     gen.write_text(p["gfa"], gtext)
-    gen.write_gzip(p["gfaz"], gtext)
+    # the compressed copy of the graph: an ordinary gzip file, or one of several members (bgzip output / concatenated gzip files)
+    if rng.random() < 0.5:
+        gen.write_gzip(p["gfaz"], gtext)
+    else:
+        gen.write_gzip_multi(p["gfaz"], gtext, members=rng.choice([2, 3, 5]))
     if with_reads:
         p["fa"] = os.path.join(tmp, "r.fa")
         gen.write_text(p["fa"], "".join(reads))
